@@ -17,6 +17,17 @@ kept.  The same is done at the start of fresh interpreters.  Its inputs are maps
 tie that only the order of processing can decide: a contig shared by two or three Pretext pieces with equal
 overlaps (cut through the exact middle or into equal thirds, below or above one texel), Pretext pieces that
 overlap each other or duplicate one another, chromosomes of equal length competing for a size rank.
+
+"Running again on the same inputs" also means running again with the same --output: what is on disk under the
+output names when the tool starts (the files of an earlier run on the same or on other inputs, unrelated bytes) is
+not an input file, so with the default --clobber every file the tool writes - the .log too - must be what it writes
+into an empty directory (check_reruns; files the run does not write are left-overs, not outputs, and are ignored as
+long as they are untouched).  "Freshly built or loaded from disk" is checked over every state the two cache files
+next to the FASTA can be found in (check_cache_states): each of .fai / .agp absent, written from this FASTA and
+newer / as old as / older than it, or left from an earlier version of the FASTA (same name, other gaps, other line
+length) and older than / as old as it.  Whatever the state, the outputs must be those of the run without cache:
+a cache is either valid for this FASTA or has to be rebuilt.  Only here the log lines that print an absolute path
+(the warnings about the cache files) are left out of the comparison.
 """
 
 import gc
@@ -50,10 +61,60 @@ class Work:
         fmts = ("fa", "agp", "tpf") if g.tpf_can_carry(case) else ("fa", "agp")
         self.inputs = g.write_inputs(case, self.root / "in", formats=fmts)
         self.n = 0
+        self.before = {}  # content of the output directory of the last run just before the tool started
+        self._cache_content = {}
 
     def cache_files(self):
         fa = self.inputs["fa"]
         return [pathlib.Path(str(fa) + ".fai"), pathlib.Path(str(fa) + ".agp")]
+
+    def cache_content(self, version):
+        """
+        (.fai bytes, .agp bytes) as the tool itself leaves them next to a FASTA named like the input: version "own" =
+        this case's FASTA, "other" = an earlier version of it (other_version).  Built once, in a directory of its own.
+        """
+        if version not in self._cache_content:
+            d = self.root / f"cache_{version}"
+            d.mkdir()
+            fa = d / self.inputs["fa"].name
+            fa.write_bytes(self.inputs["fa"].read_bytes() if version == "own" else g.fasta_bytes(other_version(self.case), width=50))
+            build_cache(fa)
+            self._cache_content[version] = tuple(pathlib.Path(str(fa) + sfx).read_bytes() for sfx in (".fai", ".agp"))
+        return self._cache_content[version]
+
+    def set_cache_state(self, state):
+        """state = {"fai": s, "agp": s}, s in CACHE_STATES; the FASTA gets the fixed mtime CACHE_T0"""
+        fa = self.inputs["fa"]
+        os.utime(fa, (CACHE_T0, CACHE_T0))
+        for k, path in zip(("fai", "agp"), self.cache_files()):
+            path.unlink(missing_ok=True)
+            version, age = CACHE_STATES[state[k]][:2]
+            if version is None:
+                continue
+            path.write_bytes(self.cache_content(version)[k == "agp"])
+            os.utime(path, (CACHE_T0 + age, CACHE_T0 + age))
+
+    def prepare_out_dir(self, spec, out_dir, out_arg, cwd, out_fmt):
+        """
+        what the output directory holds before the run: spec["prior"] = earlier runs with the same --output, each
+        "same" (this case's inputs) or the name of one of the FIXED cases (other inputs); spec["junk"] = {"kind":
+        "long" | "short", "names": [file names]}: files of those names holding unrelated bytes.
+        """
+        for k, prior in enumerate(spec.get("prior", [])):
+            if prior == "same":
+                inputs = self.inputs
+            else:
+                d = self.root / f"prior_{prior}"
+                if not d.is_dir():
+                    d.mkdir()
+                    g.write_inputs(FIXED[prior](), d, formats=("fa", "agp"))
+                inputs = {"fa": d / "asm.fa", "agp": d / "asm.agp", "pretext": d / "pretext.agp"}
+            in_fmt = "fa" if out_fmt == "fa" else "agp"
+            g.run_pretext_to_asm(["-a", inputs[in_fmt], "-p", inputs["pretext"], "-o", out_arg], cwd=cwd)  # may fail: whatever it leaves
+        if junk := spec.get("junk"):
+            data = b"left over from something else\n" * 4000 if junk["kind"] == "long" else b"?\n"
+            for name in junk["names"]:
+                (out_dir / pathlib.Path(name).name).write_bytes(data)
 
     def run(self, cfg):
         """returns (snapshot dict | None, error text)"""
@@ -62,24 +123,30 @@ class Work:
         out_dir.mkdir()
         in_fmt = cfg.get("in_fmt", "fa")
         out_fmt = cfg.get("out_fmt", "fa")
-        if in_fmt == "fa":
-            if cfg.get("cache") == "cold":
-                for p in self.cache_files():
-                    p.unlink(missing_ok=True)
-            elif cfg.get("cache") == "warm" and not all(p.exists() for p in self.cache_files()):
-                import logging
-
-                from tola.fasta.index import FastaIndex
-
-                prev = logging.root.manager.disable
-                logging.disable(logging.CRITICAL)
-                try:
-                    FastaIndex(self.inputs["fa"]).auto_load()
-                finally:
-                    logging.disable(prev)
+        cache_state = cfg.get("cache") if isinstance(cfg.get("cache"), dict) else None
         cwd = {"root": self.root, "elsewhere": self.root / "elsewhere", "outdir": out_dir}[cfg.get("cwd", "root")]
         out_arg = f"{OUT}.{out_fmt}" if cfg.get("cwd") == "outdir" else out_dir / f"{OUT}.{out_fmt}"
         args = ["-a", self.inputs[in_fmt], "-p", self.inputs["pretext"], "-o", out_arg] + cfg.get("extra", [])
+        self.before = {}
+        if cfg.get("outdir"):
+            self.prepare_out_dir(cfg["outdir"], out_dir, out_arg, cwd, out_fmt)
+            self.before = g.snapshot(out_dir)
+        if in_fmt == "fa":  # after the earlier runs into the output directory: they use the cache too
+            if cache_state:
+                self.set_cache_state(cache_state)
+            elif cfg.get("cache") == "cold":
+                for p in self.cache_files():
+                    p.unlink(missing_ok=True)
+            elif cfg.get("cache") == "warm" and not all(p.exists() for p in self.cache_files()):
+                build_cache(self.inputs["fa"])
+        try:
+            return self.run_prepared(cfg, args, cwd, out_dir)
+        finally:
+            if cache_state and in_fmt == "fa":
+                for p in self.cache_files():  # the next run starts from a cache it asks for itself
+                    p.unlink(missing_ok=True)
+
+    def run_prepared(self, cfg, args, cwd, out_dir):
         if cfg["via"] == "subprocess" and cfg.get("pre") is not None:
             code, _, err = run_subprocess_pre(P2A, args, cwd, cfg.get("hashseed"), cfg["pre"])
             err = err.decode(errors="replace")
@@ -122,6 +189,78 @@ class Work:
         finally:
             mod.FastaIndex = orig
         return code, (exc or "") + err
+
+
+# ------------------------------------------------------------------ states of the FASTA index cache
+
+CACHE_T0 = 1_700_000_000  # mtime given to the FASTA; the cache files are dated relative to it
+CACHE_STATES = {
+    # name: (content: None = no file | "own" = written from this FASTA | "other" = from an earlier version of it, mtime - FASTA mtime, words)
+    "absent": (None, 0, "absent"),
+    "fresh": ("own", 100, "written from this FASTA, newer than it"),
+    "equal": ("own", 0, "written from this FASTA, same mtime as it"),
+    "stale": ("own", -100, "written from this FASTA, older than it (the FASTA was touched)"),
+    "other-stale": ("other", -100, "left from an earlier version of the FASTA, older than it"),
+    "other-equal": ("other", 0, "left from an earlier version of the FASTA, same mtime as it (edited within one clock tick)"),
+}
+
+
+def build_cache(fasta):
+    """lets the tool index the FASTA (cache files absent before, or as found)"""
+    import logging
+
+    from tola.fasta.index import FastaIndex
+
+    prev = logging.root.manager.disable
+    logging.disable(logging.CRITICAL)
+    try:
+        FastaIndex(fasta).auto_load()
+    finally:
+        logging.disable(prev)
+
+
+def other_version(case):
+    """
+    An earlier version of the case's input assembly, as a FASTA of the same name would have held it: same sequence
+    names and lengths, other residues, the gap of a scaffold 50 bases further left / a gap in a scaffold that has
+    none now (written with another line length, so that the .fai offsets differ as well).
+    """
+    scaffolds = []
+    for sc in case["scaffolds"]:
+        p = [list(x) for x in sc["pieces"]]
+        if len(p) >= 3 and p[0][0] == "S" and p[-1][0] == "S" and p[0][1] > 100:
+            p[0][1] -= 50
+            p[-1][1] += 50
+        elif len(p) == 1 and p[0][1] >= 400:
+            n = p[0][1]
+            p = [["S", n // 2 - 50], ["N", 100], ["S", n - n // 2 - 50]]
+        scaffolds.append({"name": sc["name"], "pieces": p})
+    return dict(case, scaffolds=scaffolds, seed=case.get("seed", 0) + 1)
+
+
+def describe(cfg):
+    """in words: what the run found on disk (output directory, cache files) - used in the failure messages"""
+    parts = []
+    if od := cfg.get("outdir"):
+        if od.get("prior"):
+            runs = ", then ".join("the same inputs" if x == "same" else f"other inputs (case {x})" for x in od["prior"])
+            parts.append(f"the same --output had been written before by a run on {runs}")
+        if od.get("junk"):
+            parts.append(f"the output directory held files named like the outputs with unrelated content ({od['junk']['kind']}: {od['junk']['names']})")
+    if isinstance(cfg.get("cache"), dict):
+        parts.append("index cache next to the FASTA before the run: " + ", ".join(f".{k} {CACHE_STATES[v][2]}" for k, v in sorted(cfg["cache"].items(), reverse=True)))
+    return "; ".join(parts)
+
+
+def strip_path_lines(snap, root):
+    """the log without the lines that print an absolute path below root (the only part of the log that may differ)"""
+    marks = {str(root).encode(), str(pathlib.Path(root).resolve()).encode()}
+    out = {}
+    for name, data in snap.items():
+        if name.endswith(".log"):
+            data = b"".join(ln for ln in data.splitlines(keepends=True) if not any(m in ln for m in marks))
+        out[name] = data
+    return out
 
 
 # ------------------------------------------------------------------ allocation history
@@ -479,11 +618,13 @@ def diff_snapshots(a, b):
         return f"different sets of output files: {sorted(a)} vs {sorted(b)}"
     for name in sorted(a):
         if a[name] != b[name]:
+            if a[name] and b[name].endswith(a[name]):
+                return f"{name} holds {len(b[name]) - len(a[name])} bytes of other content in front of the expected {len(a[name])} bytes (written without truncating: appended)"
             la, lb = a[name].split(b"\n"), b[name].split(b"\n")
             for i, (x, y) in enumerate(zip(la, lb)):
                 if x != y:
                     return f"{name} differs at line {i + 1}: {x[:120]!r} vs {y[:120]!r}"
-            return f"{name} differs in length: {len(a[name])} vs {len(b[name])} bytes"
+            return f"{name} differs in length: {len(a[name])} vs {len(b[name])} bytes (one is the beginning of the other)"
     return None
 
 
@@ -496,9 +637,15 @@ def compare(work, ref_cfg, ref, cfg, col, rows_only=False):
     inp = {"kind": "pair", "case": work.case, "ref": ref_cfg, "run": cfg, "rows_only": rows_only}
     snap, err = work.run(cfg)
     col.case((work.case["name"], repr(sorted(cfg.items()))), sample=inp if cfg.get("hashseed") == 2 else None)
+    found = describe(cfg)
     if snap is None:
-        col.fail(f"case {work.case['name']}: run {cfg} failed though the reference run {ref_cfg} succeeded: {err}", inp)
+        col.fail(f"case {work.case['name']}: run {cfg} failed though the reference run {ref_cfg} succeeded" + (f" ({found})" if found else "") + f": {err}", inp)
         return
+    if cfg.get("outdir"):
+        # files the reference run does not write and this run did not touch are left-overs, not outputs of this run
+        snap = {n: v for n, v in snap.items() if n in ref or work.before.get(n) != v}
+    if isinstance(cfg.get("cache"), dict):
+        ref, snap = strip_path_lines(ref, work.root), strip_path_lines(snap, work.root)
     if rows_only:
         ra, rb = assembly_rows(ref), assembly_rows(snap)
         d = None
@@ -512,11 +659,23 @@ def compare(work, ref_cfg, ref, cfg, col, rows_only=False):
                     break
     else:
         d = diff_snapshots(ref, snap)
-    if d:
+    if d and cfg.get("outdir"):
+        col.fail(
+            f"case {work.case['name']}: {found}; the files written by the run {cfg} differ from those the same command writes into an empty "
+            f"directory ({ref_cfg}): {d} - the output files depend on what earlier runs left on disk, not only on the input files",
+            inp,
+        )
+    elif d and found:
+        col.fail(
+            f"case {work.case['name']}: {found}; the outputs of the run {cfg} differ from those of the run without cache ({ref_cfg}) on the "
+            f"same files: {d} - a cache that is not valid for this FASTA was used instead of being rebuilt",
+            inp,
+        )
+    elif d:
         col.fail(f"case {work.case['name']}: outputs of {cfg} differ from those of {ref_cfg}: {d}", inp)
 
 
-def check_case(case, col, quick, rng):
+def check_case(case, col, quick, rng, full_cache=True):
     with tempfile.TemporaryDirectory() as root:
         work = Work(case, root)
         ref_cfg = {"via": "subprocess", "hashseed": 0, "cwd": "root", "cache": "cold"}
@@ -543,6 +702,10 @@ def check_case(case, col, quick, rng):
             if col.full:
                 return
             compare(work, ref_cfg, ref, cfg, col)
+        check_cache_states(work, ref_cfg, ref, col, quick, full_cache)
+        check_reruns(work, col, quick)
+        if col.full:
+            return
         # the same input assembly as FASTA, AGP or TPF: same output assemblies row for row
         ref_agp_cfg = {"via": "inprocess", "in_fmt": "fa", "out_fmt": "agp", "cache": "warm"}
         ref_agp, err = work.run(ref_agp_cfg)
@@ -573,6 +736,80 @@ def check_case(case, col, quick, rng):
                             d = diff_snapshots(ta, tb)
                             if d:
                                 col.fail(f"case {case['name']}: output assemblies from {in_fmt} input differ from those from FASTA input: {d}", inp)
+
+
+def other_fixed(case):
+    """name of a FIXED case with other inputs than `case`"""
+    return "multi" if case["name"] != "multi" else "cut"
+
+
+def check_reruns(work, col, quick):
+    """
+    The same command again with the same --output (default --clobber), after earlier runs on the same / on other
+    inputs, or with unrelated files under the output names: everything it writes must be what it writes into an
+    empty directory.
+    """
+    other = other_fixed(work.case)
+    for out_fmt in ("fa", "agp") if quick else ("fa", "agp", "tpf"):
+        ref_cfg = {"via": "inprocess", "cwd": "root", "cache": "warm", "out_fmt": out_fmt}
+        ref, err = work.run(ref_cfg)
+        col.case((work.case["name"], "rerun-ref", out_fmt))
+        if ref is None or col.full:
+            continue
+        names = sorted(ref)
+        states = [{"prior": ["same"]}, {"prior": [other]}, {"junk": {"kind": "long", "names": names}}, {"junk": {"kind": "short", "names": names}}]
+        runs = []
+        if out_fmt == "fa":
+            runs.append({"via": "subprocess", "hashseed": 1, "cwd": "root", "cache": "warm", "outdir": {"prior": ["same"]}})
+            states += [{"prior": [other, "same"]}, {"prior": ["same", "same"]}]
+        if not quick:
+            states += [{"prior": [other], "junk": {"kind": "long", "names": [n for n in names if n.endswith(".log")]}}, {"prior": ["same", other]}]
+            runs += [{"via": "subprocess", "hashseed": 2, "cwd": ("elsewhere", "outdir")[k % 2], "cache": "warm", "out_fmt": out_fmt, "outdir": st} for k, st in enumerate(states[1:4])]
+        runs += [{"via": "inprocess", "cwd": ("root", "outdir")[k % 2], "cache": "warm", "out_fmt": out_fmt, "outdir": st} for k, st in enumerate(states)]
+        for cfg in runs:
+            if col.full:
+                return
+            compare(work, ref_cfg, ref, dict(cfg, out_fmt=out_fmt), col)
+
+
+CACHE_PAIRS_QUICK = [
+    ("fresh", "other-stale"), ("other-stale", "fresh"), ("fresh", "other-equal"), ("other-equal", "fresh"), ("other-stale", "other-stale"),
+    ("other-equal", "other-equal"), ("fresh", "absent"), ("absent", "fresh"), ("stale", "fresh"), ("fresh", "equal"), ("equal", "equal"),
+    ("stale", "stale"), ("other-stale", "absent"), ("absent", "other-equal"),
+]  # fmt: skip
+
+
+def check_cache_states(work, ref_cfg, ref, col, quick, full):
+    """
+    Every state of the two cache files (.fai, .agp) next to the FASTA x the run that finds them: the outputs must be
+    those of the reference run, which found no cache.  `full`: the whole 6 x 6 product, else CACHE_PAIRS_QUICK.
+    """
+    pairs = list(itertools.product(CACHE_STATES, repeat=2)) if full else CACHE_PAIRS_QUICK
+    try:
+        work.cache_content("own"), work.cache_content("other")
+    except Exception as e:  # noqa: BLE001
+        col.fail(f"case {work.case['name']}: indexing the FASTA (or an earlier version of it) failed: {e!r}", {"kind": "pair", "case": work.case, "ref": ref_cfg, "run": dict(ref_cfg, cache="warm")})
+        return
+    runs = [{"via": "inprocess", "cwd": "root", "cache": {"fai": f, "agp": a}} for f, a in pairs]
+    sub = CACHE_PAIRS_QUICK[:2] if quick else CACHE_PAIRS_QUICK[:8]
+    runs += [{"via": "subprocess", "hashseed": 1, "cwd": "elsewhere", "cache": {"fai": f, "agp": a}} for f, a in (sub if full or not quick else [])]
+    for cfg in runs:
+        if col.full:
+            return
+        compare(work, ref_cfg, ref, cfg, col)
+    if quick:
+        return
+    # assembly outputs (no sequence is read: only the .agp half of the cache is used, the .fai must still not matter)
+    for out_fmt in ("agp", "tpf"):
+        r_cfg = dict(ref_cfg, via="inprocess", out_fmt=out_fmt)
+        r, _ = work.run(r_cfg)
+        col.case((work.case["name"], "cache-ref", out_fmt))
+        if r is None:
+            continue
+        for f, a in pairs:
+            if col.full:
+                return
+            compare(work, r_cfg, r, {"via": "inprocess", "cwd": "root", "out_fmt": out_fmt, "cache": {"fai": f, "agp": a}}, col)
 
 
 def check_orders(cases, col, quick):
@@ -622,6 +859,29 @@ def check_asm_format(case, col, quick):
                     f"{[(c, len(o)) for c, o in outs]}",
                     {"kind": "asm-format", "case": case, "label": label},
                 )
+            if label == "qc":
+                continue
+            # --output-file: into a new file, again into the file just written, into a file holding unrelated bytes
+            ext = "tpf" if "TPF" in args else "agp"
+            written = []
+            for k, found in enumerate(("no file", "no file", "the file written by the same command", "a longer file of unrelated content", "a short file of unrelated content")):
+                target = root / ("o1" if k == 0 else "o2") / f"out.{ext}"
+                target.parent.mkdir(exist_ok=True)
+                if k == 3:
+                    target.write_bytes(b"left over from something else\n" * 4000)
+                elif k == 4:
+                    target.write_bytes(b"?\n")
+                code, out, exc = g.run_asm_format([*args, "-o", target])
+                col.case((case["name"], "asm-format", label, "-o", k))
+                written.append((code, target.read_bytes() if target.exists() else None))
+                if written[-1] != written[0]:
+                    d = diff_snapshots({target.name: written[0][1] or b""}, {target.name: written[-1][1] or b""})
+                    col.fail(
+                        f"asm-format {label} -o on case {case['name']}: the output path held {found} before the run and the file written differs from "
+                        f"the one written to a new path (exit {written[0][0]} / {code}): {d} - the output file depends on what was on disk, not only on the input file",
+                        {"kind": "asm-format", "case": case, "label": label},
+                    )
+                    break
 
 
 def check_specimen(spec_dir, col):
@@ -640,7 +900,15 @@ def check_specimen(spec_dir, col):
             code, _, err = g.run_subprocess(P2A, ["-a", input_tpf, "-p", pretext, "-o", out / f"{specimen}-pretext-to-tpf{version}.tpf", "--write-log"], cwd=out, hashseed=seed)
             col.case(("specimen", spec_dir.name, seed))
             snaps.append((code, g.snapshot(out)))
+            if k == 1:
+                # and once more with the same --output: the directory now holds the files of the run before
+                code, _, err = g.run_subprocess(P2A, ["-a", input_tpf, "-p", pretext, "-o", out / f"{specimen}-pretext-to-tpf{version}.tpf", "--write-log"], cwd=out, hashseed=seed)
+                col.case(("specimen", spec_dir.name, seed, "again"))
+                snaps.append((code, g.snapshot(out)))
     inp = {"kind": "specimen", "dir": spec_dir.name}
+    if len(snaps) > 2 and snaps[2] != snaps[1]:
+        d = f"exit status {snaps[1][0]} / {snaps[2][0]}" if snaps[1][0] != snaps[2][0] else diff_snapshots(snaps[1][1], snaps[2][1])
+        col.fail(f"specimen {spec_dir.name}: the same command run a second time with the same --output leaves other files than the first time: {d} - the output files depend on what an earlier run left on disk", inp)
     if snaps[0][0] != snaps[1][0]:
         col.fail(f"specimen {spec_dir.name}: exit status {snaps[0][0]} under PYTHONHASHSEED=0 but {snaps[1][0]} under 7", inp)
     elif d := diff_snapshots(snaps[0][1], snaps[1][1]):
@@ -697,6 +965,10 @@ def run(tier, seed, **opts):
         "size; random maps with several such contigs) run repeatedly in one process in changing orders with allocation churn in between "
         "(blocks of all small size classes and project objects allocated, partly freed in random order, partly kept), collector on / "
         "off / collected first, and in fresh interpreters whose heap was used before the program starts; "
+        "every generated case also with the two index cache files next to the FASTA in each state (absent / from this FASTA and newer, "
+        "equally old, older / from an earlier version of the FASTA and older, equally old) compared with the run without cache, and run "
+        "again with the same --output (default --clobber) after runs on the same and on other inputs or onto files of unrelated content "
+        "named like the outputs, compared with the run into an empty directory (all files, the .log included); asm-format -o likewise; "
         "non-trivial = distinct (case, run configuration) compared with the reference run"
     )
     cases = [g.case_cut(), g.case_haps(), g.case_multi()]
@@ -704,10 +976,10 @@ def run(tier, seed, **opts):
         cases.append(g.case_random(rng, 0))
     else:
         cases += [g.case_simple()] + [g.case_random(rng, k) for k in range(12)]
-    for case in cases:
+    for i, case in enumerate(cases):
         if col.full:
             break
-        check_case(case, col, quick, rng)
+        check_case(case, col, quick, rng, full_cache=not quick or i < 2)
     if not col.full:
         check_orders(cases[:3], col, quick)
     for case in cases[:2] if quick else cases[:6]:
@@ -729,7 +1001,9 @@ def run(tier, seed, **opts):
             n_spec += 1
     return col.result(
         bounds=f"{len(cases)} generated cases x (4" + ("" if quick else "+6") + " subprocess runs, 2 in-process runs, "
-        + ("6" if quick else "11") + " buffer sizes, up to 4 input/output format pairs); 3 cases in "
+        + ("6" if quick else "11") + " buffer sizes, up to 4 input/output format pairs, "
+        + ("36 (first two cases) or 14 cache states + 2 as subprocess for FASTA output, " if quick else "36 cache states x FASTA / AGP / TPF output + 8 as subprocess, ")
+        + ("9 + 4 re-runs into a used output directory for FASTA / AGP output); 3 cases in " if quick else "up to 11 + 3 re-runs into a used output directory for each of FASTA / AGP / TPF output); 3 cases in ")
         + ("6" if quick else "6") + f" orders in one process; asm-format 3-4 conversions x 4 runs; {n_spec} specimens x 2 hash seeds; "
         f"{len(ties)} tie maps x (1 reference + {n_pre} pre-used fresh interpreters + {reps} in-process runs in shuffled rounds with churn / gc modes)",
         exhaustive=False,
